@@ -141,16 +141,23 @@ func (propC05) Gen(r *Rng, idx int, tier string) *Scenario {
 			case x == 1 && (strings.Contains(baseKind(o.Kind), "int") || strings.Contains(baseKind(o.Kind), "float") || strings.Contains(o.Kind, "func(int")):
 				// one element of the environment text does not convert
 				txt := envTextFor(sr, o)
+				bad := "x!y"
+				if isMapKind(o.Kind) {
+					bad = "k:x!y" // (a map entry without value part would be the empty-text boundary)
+					if strings.Contains(mapKeyKind(o.Kind), "int") {
+						bad = "x!y:v"
+					}
+				}
 				if o.EnvDelim != "" {
 					parts := strings.Split(txt, o.EnvDelim)
-					parts[sr.Intn(len(parts))] = "x!y"
+					parts[sr.Intn(len(parts))] = bad
 					if len(parts) > 1 && sr.Bool() {
-						parts[0] = "x!y" // a bad non-final element
+						parts[0] = bad // a bad non-final element
 						parts[len(parts)-1] = strings.Split(envTextFor(sr, o), o.EnvDelim)[0]
 					}
 					txt = strings.Join(parts, o.EnvDelim)
 				} else {
-					txt = "x!y"
+					txt = bad
 				}
 				p.Env0[key] = BStr(txt)
 			default:
@@ -425,6 +432,7 @@ func (propC05) Judge(sc *Scenario) *Verdict {
 	}
 	// does the model predict a conversion failure somewhere?
 	ois := optInfos(d)
+	boundaryOpt := ""
 	predictErr := ""
 	type exp struct {
 		oi   optInfo
@@ -440,7 +448,13 @@ func (propC05) Judge(sc *Scenario) *Verdict {
 			// text is the winning source and must convert
 			early := c05Model(oi, d, cli, nil, env)
 			if early.name != "stored" {
-				if _, err := modelApply(k, early.texts); err != nil && predictErr == "" {
+				emptyText := false
+				for _, t := range early.texts {
+					emptyText = emptyText || t == "" || (isMapKind(k) && (!strings.Contains(t, ":") || strings.HasSuffix(t, ":") || strings.HasPrefix(t, ":")))
+				}
+				if _, err := modelApply(k, early.texts); err != nil && emptyText {
+					boundaryOpt = oi.Path
+				} else if err != nil && predictErr == "" {
 					predictErr = fmt.Sprintf("%s from %s %q (applied by ParseArgs before the INI was read)", oi.Path, early.name, early.texts)
 				}
 			}
@@ -470,7 +484,15 @@ func (propC05) Judge(sc *Scenario) *Verdict {
 				}
 			}
 			if err != nil {
-				if predictErr == "" {
+				boundary := false
+				for _, t := range src.texts {
+					if t == "" || (isMapKind(k) && (!strings.Contains(t, ":") || strings.HasSuffix(t, ":") || strings.HasPrefix(t, ":"))) {
+						boundary = true // whether an empty text converts is C11's business
+					}
+				}
+				if boundary {
+					boundaryOpt = oi.Path
+				} else if predictErr == "" {
 					predictErr = fmt.Sprintf("%s from %s %q", oi.Path, src.name, src.texts)
 				}
 				continue
@@ -485,6 +507,10 @@ func (propC05) Judge(sc *Scenario) *Verdict {
 		if o.Ops[i].Op == "iniread" {
 			ir = &o.Ops[i]
 		}
+	}
+	if predictErr == "" && boundaryOpt != "" {
+		v.NotJudged = "winning source is the empty text for a non-string kind (conversion boundary)"
+		return finish()
 	}
 	if predictErr != "" {
 		// an unconvertible text in the winning source must surface as an error
